@@ -367,6 +367,30 @@ fn replay_c08(o: &mut Out, l: &str) {
 }
 
 
+
+/// C02 on the execution paths: a sample of bundles (mempool path, incl. wrong declared puzzle hashes
+/// and amounts near 2^64) and quoted generators (both block paths), without INTERNED_GENERATOR
+pub fn run_paths_sample(o: &mut Out, seed: u64, thorough: bool) {
+    let p = pools();
+    let mut r = Rng::new(seed ^ 0xc02c08);
+    let n = if thorough { 8_000 } else { 800 };
+    for _ in 0..n {
+        let mut flags = F_DONT_VALIDATE;
+        if r.chance(1, 2) { flags |= F_COST; }
+        if r.chance(1, 4) { flags |= F_LIMIT; }
+        if r.chance(1, 4) { flags |= F_NO_UNKNOWN | F_STRICT; }
+        if r.chance(1, 2) {
+            let mut css = gen_coin_spends(&mut r, &p);
+            if r.chance(1, 6) && !css.is_empty() { let i = r.below(css.len() as u64) as usize; let mut ph = css[i].0.puzzle_hash.to_vec(); ph[r.below(32) as usize] ^= 1 << r.below(8); css[i].0 = Coin::new(css[i].0.parent_coin_info, Bytes32::new(ph.try_into().unwrap()), css[i].0.amount); }
+            c08_case(o, &css, flags, 11_000_000_000);
+        } else {
+            let sp = gen_gspends(&mut r, &p);
+            let bytes = to_bytes(&quoted_generator(&sp, nil(), nil()));
+            c07_case(o, &bytes, &[], flags, 11_000_000_000);
+        }
+    }
+}
+
 /// C04 on the execution paths: accepted bundles / quoted generators re-run with the limit at every
 /// stage boundary of the countdown, at the total and one below (no INTERNED_GENERATOR: that mode's
 /// cost asymmetry is C07's recorded finding)
